@@ -556,12 +556,9 @@ func collectRaces(rdir, prop, repo string) ([]proto.Viol, int) {
 	sort.Strings(keys)
 	for _, k := range keys {
 		rb := seen[k]
-		// a race is reported by the property that owns the racing file; the
-		// check being run reports it when it is the owner, or when the owner is
-		// none of the claimed properties' engines (then whoever saw it).
-		if rb.owner != "" && rb.owner != prop && !sameEngine(rb.owner, prop) {
-			continue
-		}
+		// every race between two accesses in the repository's own code is reported by
+		// the check whose workload produced it, whichever file it is in: another
+		// property's workload may never reach it.
 		out = append(out, proto.Viol{Kind: "data-race", Attr: rb.sig, Msg: firstLines(rb.text, 40)})
 	}
 	return out, total
